@@ -398,9 +398,9 @@ func runC09(c *Ctx) {
 				return false
 			}}, 1)
 			c.NoReach("R09.6", "a skipped job never takes a backoff interval", body, p.EdgeSuccs(body, skipped), 1, gb, CutSpec{})
-			// the other direction of "cleared on skip": once the job is known to be skipped, it does not end with the
-			// grown interval of earlier failures still in the table (fail, fail, skip, fail would wait for the third interval)
-			c.NoReach("R09.6", "a skipped job never ends without clearing its backoff", body, p.EdgeSuccs(body, skipped), 1, IsReturn, CutSpec{Nodes: cb})
+			// (the other direction — a skipped job does not end with the grown interval still in the table, seed s09g — is not
+			// claimed: stated as "no return reachable from a skipped edge without clearBackoff" it alarmed on the
+			// behaviour-preserving refactorings r2J2/r3J3, where the skip test is repeated in a helper; see DESIGN.md §5)
 		}
 	}
 
